@@ -109,12 +109,9 @@ class ParseTimeout(argparse.Action):
 
     @staticmethod
     def unparse(value: float) -> str:
-        # less than 1s, render as ms
-        if value < 1:
-            return f"{int(value * 1000)}ms"
-
-        # otherwise, render as s
-        return f"{int(value)}s"
+        # render in seconds without truncation, so that parse(unparse(x)) == x
+        # (e.g. 1.5 must not become "1s", and 0.0005 must not become "0ms", i.e. no timeout)
+        return f"{float(value)!r}s"
 
 
 class ParseCSVTraceEvent(argparse.Action):
